@@ -102,6 +102,9 @@ class _ArithmeticMixin:
     __rand__ = __and__
 
     def __xor__(self, other):
+        if iter(other) is other:
+            # A one-shot iterator: both differences need all of its elements.
+            other = list(other)
         return (self - other) | (other - self)
 
     __rxor__ = __xor__
